@@ -219,7 +219,10 @@ class Loader(yaml.SafeLoader):
         if recognized_type in self._registered_classes.values():
             try:
                 node = self.__savorize(node, recognized_type)
-            except SeasoningError as e:
+            except RecognitionError:
+                raise
+            except Exception as e:
+                # like exceptions raised by __init__, see Constructor
                 raise RecognitionError(
                         '{}\n{}'.format(node.start_mark, e))
         logger.debug('Savorized, now {}'.format(node))
